@@ -543,6 +543,14 @@ impl NostrGroupDataExtension {
     }
 }
 
+#[cfg(feature = "verif-hooks")]
+impl NostrGroupDataExtension {
+    /// Verification hook: the private `deserialize_bytes`
+    pub fn verif_deserialize_bytes(bytes: &[u8]) -> Result<Self, Error> {
+        Self::deserialize_bytes(bytes)
+    }
+}
+
 #[cfg(test)]
 mod tests {
     use mdk_storage_traits::test_utils::crypto_utils::generate_random_bytes;
